@@ -772,7 +772,7 @@ func init() {
 		Level: "exploration",
 		Rule: "crash + post-condition monitor over generated (binding, target) pairs: bindings {nil, struct, slice (0-3 blocks, empty)} whose blocks hold int/float/string/bool/NIL values and nested blocks to depth 3, keys that collide after folding, named children; targets: a type derived from the block (by name or by tag), the same with fields retyped to one of 24 kinds (wider ints, pointers, interfaces, arrays, maps, slices, funcs, chans, structs, Block) or removed, the wrong kind for the binding, " +
 			"zoo types with embedded, unexported, pointer and interface fields, and 28 hostile non-struct targets (nil, non-pointers, typed nil pointers, pointers to every kind, slices of non-structs, named non-struct type matching the block type). Required: no panic; after nil, every field of every block and its non-empty name found unchanged (value and dynamic type) in the exported field the harness's own matching rule designates, nested blocks recursively; after an error a slice target deep-equals its snapshot. " +
-			"distinct = hash(binding, target type); non-trivial = Bind returned (nil or error) and the post-condition was examined Also: hand-built bindings nested 10..39 levels; destinations that are already filled in (interface holding a struct by value or pointer, non-nil pointers); zoo types with embedded pointers, an embedded struct in front of tagged fields, digit/underscore names; keys containing control bytes; blocks take a named target's type name in 3 of 4 cases; 1 field value in 12 is a Go value the VM never produces (sized ints, float32, complex, named int, slices, arrays, maps, pointers, *Block, []Block, chan, structs, and an unnamed struct type with Block's underlying type); float values -0.0, NaN and -Inf compared bit for bit; pointers to binding values, typed nil ones included.",
+			"distinct = hash(binding, target type); non-trivial = Bind returned (nil or error) and the post-condition was examined Also: hand-built bindings nested 10..39 levels; destinations that are already filled in (interface holding a struct by value or pointer, non-nil pointers); zoo types with embedded pointers, an embedded struct in front of tagged fields, digit/underscore names; keys containing control bytes; blocks take a named target's type name in 3 of 4 cases; 1 field value in 12 is a Go value the VM never produces (sized ints, float32, complex, named int, slices, arrays, maps, pointers, *Block, []Block, chan, structs, and an unnamed struct type with Block's underlying type); float values -0.0, NaN and -Inf compared bit for bit; pointers to binding values, typed nil ones included. Also: wide blocks (9..40 fields) nested in wide blocks, children repeating most of their parent's keys, Go field names whose case-fold partner has another UTF-8 width (KELVIN SIGN, LONG S, ANGSTROM SIGN, OHM SIGN, capital sharp s).",
 		Assumptions:   []string{"when two keys of one block designate the same struct field only 'no panic' is claimed (DESIGN §6 C15)"},
 		MinNontrivial: 1000,
 		Run: func(c *core.Ctx) {
@@ -1196,7 +1196,7 @@ func init() {
 		Level: "exploration",
 		Rule: "repetition monitor: each case (source + targets) is run R times in one process (R = 30 quick / 100 thorough; Go randomises map iteration per range statement, so repetition exercises iteration order) and once in fresh processes with GOMAXPROCS 1, 2 and 16 (different hash seeds); the digest of everything observable (Dump hash, diagnostics, output, blocks, binding, Unmarshal target and error text for a struct and a slice target, dump before/after Execute) must be identical. " +
 			"History variants: A, B, A (the second A equals the first); results of a run are mutated before the next run of the same Prog. Cases are selected for order sensitivity: several keys folding to one struct field, several named children of one type into one field, several faulty fields at once, many constants and identifiers, several diagnostics, plus generated programs. " +
-			"distinct = hash of source; non-trivial = at least 2 runs were compared The digest also contains: a run with statistics and disassembly; Dump into a failing writer followed by another Dump; ParseFile under a scripted reader with a read error behind a lexical failure and varying perturbation (error, log, whether a Prog came back); two same-named local struct types unmarshalled in one order here and the other order in one fresh process. A Prog parsed from a buffer that the caller overwrites afterwards must equal one parsed from an untouched buffer. Source kinds also: 40..100 faulty blocks bound to a slice. Also: blocks whose keys differ only in letter case or underscores and designate one struct field (which value wins and which key an error names must not vary). Also: operators applied to a child block with 2..7 fields (the error text must not vary); every accepted program's dump is also loaded with one name operand redirected to another constant and executed twice: both executions give the same outcome (whatever it is) and the Prog dumps the same before and after.",
+			"distinct = hash of source; non-trivial = at least 2 runs were compared The digest also contains: a run with statistics and disassembly; Dump into a failing writer followed by another Dump; ParseFile under a scripted reader with a read error behind a lexical failure and varying perturbation (error, log, whether a Prog came back); two same-named local struct types unmarshalled in one order here and the other order in one fresh process. A Prog parsed from a buffer that the caller overwrites afterwards must equal one parsed from an untouched buffer. Source kinds also: 40..100 faulty blocks bound to a slice. Also: blocks whose keys differ only in letter case or underscores and designate one struct field (which value wins and which key an error names must not vary). Also: operators applied to a child block with 2..7 fields (the error text must not vary); every accepted program's dump is also loaded with one name operand redirected to another constant and executed twice: both executions give the same outcome (whatever it is) and the Prog dumps the same before and after. Every binding is also bound into eight further target shapes (Name field of the wrong type / unexported / missing, two fields one key fits, one of them promoted from an embedded struct, fold-partner names); sources whose keys fit two fields.",
 		Assumptions:   []string{"the digest renders maps with sorted keys, so only the library's own order dependence can show"},
 		MinNontrivial: 300,
 		Run: func(c *core.Ctx) {
